@@ -1,0 +1,100 @@
+#!/usr/bin/env python3
+"""Verification hooks (off unless the environment variable GPYTORCH_VERIF_TRACE is set).
+
+With the variable unset every hook in the library is a single false attribute test.
+GPYTORCH_VERIF_TRACE=mem keeps events in the list ``events``; any other value is the name of an
+ndjson file that events are appended to.  Events are numbered by a per-process counter (the library is
+single threaded; no clocks are involved).
+"""
+import itertools
+import json
+import os
+
+_target = os.environ.get("GPYTORCH_VERIF_TRACE")
+ON = bool(_target)
+events = []
+_seq = itertools.count(1)
+_oid = itertools.count(1)
+_ids = {}
+_open = {}
+_fh = None
+
+
+def oid(obj, new=False):
+    """Small per-process number for an object (id() values do not fit the model checker's integers)."""
+    k = id(obj)
+    if new or k not in _ids:
+        _ids[k] = next(_oid)
+    return _ids[k]
+
+
+def emit(ev, **fields):
+    global _fh
+    rec = {"seq": next(_seq), "ev": ev}
+    rec.update(fields)
+    if _target == "mem":
+        events.append(rec)
+    else:
+        if _fh is None:
+            _fh = open(_target, "a")
+        _fh.write(json.dumps(rec, default=repr) + "\n")
+        _fh.flush()
+    return rec
+
+
+def settings_state(cls):
+    """The fields of a settings class as the public read API shows them, as strings."""
+    out = {}
+    if hasattr(cls, "_state") and hasattr(cls, "_default"):
+        out["state"] = repr(cls._default if cls._state is None else cls._state)
+    if hasattr(cls, "_num_probe_vectors"):
+        out["probes"] = repr(cls._num_probe_vectors)
+    if hasattr(cls, "_global_value"):
+        out["v"] = repr(cls._global_value)
+    if hasattr(cls, "_global_float_value"):
+        out["f"] = repr(cls._global_float_value)
+        out["d"] = repr(cls._global_double_value)
+        out["h"] = repr(cls._global_half_value)
+    return out
+
+
+def settings_req(obj):
+    """What a settings context object was asked to establish (None = field not named), as strings."""
+    out = {}
+    if hasattr(obj, "state") and hasattr(obj, "prev"):
+        out["state"] = repr(obj.state)
+    if hasattr(obj, "orig_value") and hasattr(obj, "value") and not callable(obj.value):
+        out["probes"] = repr(obj.value)
+    if hasattr(obj, "_instance_value"):
+        out["v"] = repr(obj._instance_value)
+    if hasattr(obj, "_instance_float_value"):
+        out["f"] = repr(obj._instance_float_value)
+        out["d"] = repr(obj._instance_double_value)
+        out["h"] = repr(obj._instance_half_value)
+    return out
+
+
+def s_begin(obj):
+    """Call first thing in __enter__/__exit__; returns a token that is None for nested (super()) calls."""
+    k = id(obj)
+    if k in _open:
+        return None
+    _open[k] = settings_state(obj.__class__)
+    return k
+
+
+def s_end(obj, token, ev):
+    """Call last thing in __enter__/__exit__ with the token from s_begin: one event per outermost call,
+    after the change."""
+    if token is None:
+        return
+    before = _open.pop(token)
+    cls = obj.__class__
+    emit(ev, cls=cls.__module__.split(".")[0] + "." + cls.__name__, obj=oid(obj), before=before,
+         after=settings_state(cls), req=settings_req(obj))
+
+
+def s_construct(obj):
+    cls = obj.__class__
+    emit("s_construct", cls=cls.__module__.split(".")[0] + "." + cls.__name__, obj=oid(obj, new=True),
+         before=settings_state(cls), after=settings_state(cls), req=settings_req(obj))
